@@ -4,6 +4,8 @@ package main
 //   dogfoodPrefixPairs   for each GetAll* used by x/dogfood ExportGenesis: (exporter, byte prefix it iterates,
 //                        byte prefix the per-epoch setter of the same collection writes). F-18a is a pair whose
 //                        two numbers differ.
+//   dogfoodInitRebuildsHolds  x/dogfood InitGenesis calls delegationKeeper.IncrementUndelegationHoldCount inside the loop
+//                        over genState.UndelegationMaturities (F-18b repair)
 //   genesisExportCalls   per module of C18: the keeper methods called by ExportGenesis, in order
 //   genesisInitCalls     per module of C18: the keeper methods called by InitGenesis, in order
 
@@ -152,6 +154,34 @@ func genesisGen(repo string, emit func(name, leanDef string, err error)) {
 			items = append(items, fmt.Sprintf("(%q, %d, %d)", p.exporter, iv, sv))
 		}
 		emit("dogfoodPrefixPairs", "/-- x/dogfood: (exporter, prefix it iterates, prefix its collection is written under) -/\ndef dogfoodPrefixPairs : List (String × Nat × Nat) := ["+strings.Join(items, ", ")+"]", nil)
+	}()
+	// ---- hold counts re-placed at import
+	func() {
+		f, err := parse("x/dogfood/keeper/genesis.go")
+		if err != nil {
+			emit("dogfoodInitRebuildsHolds", "", err)
+			return
+		}
+		fd := findFunc(f, "Keeper.InitGenesis")
+		if fd == nil {
+			emit("dogfoodInitRebuildsHolds", "", fmt.Errorf("x/dogfood InitGenesis not found"))
+			return
+		}
+		rebuilds := false
+		ast.Inspect(fd.Body, func(n ast.Node) bool {
+			rs, ok := n.(*ast.RangeStmt)
+			if !ok || !strings.HasSuffix(exprText(rs.X), "UndelegationMaturities") {
+				return true
+			}
+			ast.Inspect(rs.Body, func(m ast.Node) bool {
+				if c, ok := m.(*ast.CallExpr); ok && exprText(c.Fun) == "k.delegationKeeper.IncrementUndelegationHoldCount" {
+					rebuilds = true
+				}
+				return true
+			})
+			return true
+		})
+		emit("dogfoodInitRebuildsHolds", "/-- x/dogfood InitGenesis re-places the hold of every undelegation it imports into the maturity queue -/\ndef dogfoodInitRebuildsHolds : Bool := "+fmt.Sprint(rebuilds), nil)
 	}()
 	// ---- export / init call lists
 	mods := []struct{ name, file, recv, exp, ini string }{
